@@ -2543,7 +2543,14 @@ fn main() {
                                     Ok(Err(_)) => "session_other_error".to_string(),
                                 };
                                 let c = if kind.starts_with("close") {
-                                    match tokio::time::timeout(Duration::from_secs(2), conn.on_close()).await {
+                                    // `close_err_then_close`: the application calls close() only after the engine has stopped
+                                    let fut: std::pin::Pin<Box<dyn std::future::Future<Output = Result<(), fe2o3_amqp::connection::Error>> + '_>> = if kind == "close_err_then_close" {
+                                        tokio::time::sleep(Duration::from_millis(200)).await;
+                                        Box::pin(conn.close())
+                                    } else {
+                                        Box::pin(conn.on_close())
+                                    };
+                                    match tokio::time::timeout(Duration::from_secs(2), fut).await {
                                         Err(_) => "conn_still_running",
                                         Ok(Ok(())) => "conn_ok",
                                         Ok(Err(fe2o3_amqp::connection::Error::RemoteClosedWithError(_))) => "conn_remote_closed_with_error",
@@ -2562,7 +2569,7 @@ fn main() {
                             let (link, sess, c) = client.unwrap_or_else(|e| (e, String::new(), String::new()));
                             let kind = toks.get(2).copied().unwrap_or("close_err");
                             let as_expected = match kind {
-                                "close_err" => link == "conn_remote_closed_with_error:true" && c == "conn_remote_closed_with_error" && sess == "session_ok",
+                                "close_err" | "close_err_then_close" => link == "conn_remote_closed_with_error:true" && c == "conn_remote_closed_with_error" && sess == "session_ok",
                                 "close" => link == "conn_remote_closed" && c == "conn_remote_closed" && sess == "session_ok",
                                 "end_err" => link == "session_remote_ended_with_error:true" && sess == "session_remote_ended_with_error",
                                 "end_err_close" => link == "session_remote_ended_with_error:true",
